@@ -67,7 +67,8 @@ impl<T: Read> ReadInputSource<T> {
                 found = true;
             }
         }
-        Ok(String::from_utf8(buf).unwrap())
+        // bytes are characters here, as in the predicates above (`ch as char`)
+        Ok(buf.into_iter().map(|b| b as char).collect())
     }
 
     fn read_until<F>(&mut self, predicate: F) -> std::io::Result<String>
@@ -93,7 +94,8 @@ impl<T: Read> ReadInputSource<T> {
                 }
             }
         }
-        Ok(String::from_utf8(buf).unwrap())
+        // bytes are characters here, as in the predicates above (`ch as char`)
+        Ok(buf.into_iter().map(|b| b as char).collect())
     }
 }
 
